@@ -66,7 +66,7 @@ HAZARD_CHANNELS = "fresh-channels-on-long-lived-fiber"
 
 
 def strategy(hazards):
-    kinds = st.integers(0, 10)
+    kinds = st.integers(0, 11)
     if HAZARD_CHANNELS in hazards:
         # known finding: a fiber keeps every channel it ever used alive until it completes, so channels
         # created as garbage by the (long lived) main fiber are never reclaimed. Excluded by construction.
@@ -123,6 +123,8 @@ GARBAGE = [
                                 [("lambda", ["a", "b"], ("expr", ("call", ("nil",), [])))]))], [("e", None, [])]),
              ("try", [("expr", ("call", ("prop", ("call", ("prop", ("list", [V("i")]), "iter"), []), "reduce"),
                                 [N(0), ("lambda", ["a", "x"], ("expr", ("index", ("list", []), V("x"))))]))], [("e", None, [])])],
+    # (kind 11 is the relay of fibers, built once per program in build_program; per iteration it is a plain tuple)
+    lambda: [("let", "t", ("tuple", [V("i"), V("i")]))],
 ]
 
 
@@ -144,6 +146,17 @@ def build_program(keep, garbage):
     for idx, node in enumerate(keep):
         prog.append(("let", "keep%d" % idx, keep_expr(node, counts, uid)))
     prog.append(("expr", ("call", V("garbage"), [V("scale")])))
+    if 11 in [g % 12 for g in garbage]:
+        # a relay: every fiber launches the next and ends, the last one stays parked on a channel the program keeps.
+        # Whatever the length of the relay, one fiber is alive at the end
+        prog.append(("let", "hold", ("chan", None)))
+        prog.append(("let", "fin", ("chan", N(1))))
+        # (both channels are in the baseline program too: they do not count as part of the drawn live set)
+        prog.append(("fn", "relay", ["k"], [("if", ("bin", ">", V("k"), N(0)), [("launch", ("call", V("relay"), [("bin", "-", V("k"), N(1))]))],
+                                             [("expr", ("send", V("fin"), N(1))), ("let", "parked", ("recv", V("hold")))])]))
+        prog.append(("launch", ("call", V("relay"), [V("scale")])))
+        # (main waits until the relay has reached its last fiber)
+        prog.append(("let", "reached", ("recv", V("fin"))))
     # a fiber keeps the last error it caught (one instance and its back trace) until the next one: end every program,
     # the baseline too, with the same caught error so that this constant does not count as part of the live set
     prog.append(("try", [("expr", ("bin", "+", ("nil",), N(1)))], [("e", None, [])]))
